@@ -11,7 +11,7 @@ from collections import Counter
 
 import numpy as np
 
-from mc import enum, harness, refs
+from mc import enum, harness, refs, seqdiff
 from mc.common import HarnessError, Stats, pmap, safe, shards
 
 PROPERTY = 'C05'
@@ -20,7 +20,7 @@ RULE = ('mixed_rank_graph (in-process pool) on every string frame with 2 feature
         'combination of per-column partitions (RGS(n)^3) instantiated with two value maps over {"", 0, 10, 9, ü, "a b"} (sorted-order coding differs from '
         'numeric order), label first/middle/last, heuristics {MI, MI-numba-randomized, MI-numba-3mr, max-value-coverage, AMI, correlation-Pearson, Constant} '
         'x target-only/pairwise; every emitted triplet compared with an independent reference on my own coding; a directed max-value-coverage family '
-        '(hash-slot collisions, int8/int16 code dtypes, a 26x26 grid of code magnitudes around powers of ten and two); every documented non-surrogate heuristic name must not degrade to a constant. '
+        '(hash-slot collisions, int8/int16 code dtypes, a 26x26 grid of code magnitudes around powers of ten and two); every documented non-surrogate heuristic name must not degrade to a constant; sequence differential: every sequence of <= 3 batches from a 5-frame menu (same column names, unseen values, other row counts) in one process state vs a pristine state. '
         'distinct_nontrivial = (frame, heuristic, mode) cases whose reference scores take >= 2 distinct values')
 ASSUMPTIONS = ['scikit-learn adjusted_mutual_info_score and numpy.corrcoef are trusted as references for AMI / Pearson',
                'for feature-feature pairs either conditioning orientation is accepted (the statement fixes only the label side)',
@@ -232,9 +232,47 @@ def _documented(_):
     return st
 
 
+SEQ_FRAMES = [
+    [['a', 'b', 'a', 'b'], ['x', 'x', 'y', 'y'], ['0', '1', '0', '1']],
+    [['c', 'd', 'e', 'c'], ['z', 'x', 'z', 'w'], ['1', '1', '0', '2']],          # values the first frame never contained
+    [['a', 'b', 'a', 'b', 'c', 'c'], ['x', 'y', 'x', 'y', 'x', 'y'], ['0', '1', '1', '0', '0', '1']],   # other row count
+    [['b', 'a', 'b', 'a'], ['y', 'y', 'x', 'x'], ['1', '0', '1', '0']],          # first frame, rows permuted
+    [['1', '2', '3', '4'], ['', '', 'ü', 'ü'], ['0', '0', '1', '1']],
+]
+
+
+def seq_call(x):
+    fi, heuristic, pairwise = x
+    trip = run_graph_noreset(['f1', 'f2', 'label'], SEQ_FRAMES[fi], heuristic, pairwise)
+    return sorted((a, b, round(float(s), 7) if not math.isnan(float(s)) else 'nan') for a, b, s in trip)
+
+
+def run_graph_noreset(columns, data, heuristic, pairwise):
+    import pandas as pd
+    from outrank import core_ranking as cr
+    df = pd.DataFrame({c: list(v) for c, v in zip(columns, data)})
+    args = harness.make_args(heuristic=heuristic, target_ranking_only='False' if pairwise else 'True')
+    with warnings.catch_warnings():
+        warnings.simplefilter('ignore')
+        res = cr.mixed_rank_graph(df, args, harness.InlinePool(), harness.NullBar())
+    return res.triplet_scores
+
+
+def seq_menu(job):
+    heuristic, pairwise = job
+    return [(fi, heuristic, pairwise) for fi in range(len(SEQ_FRAMES))]
+
+
+def _seqdiff(job):
+    st = Stats()
+    menu = seq_menu(job)
+    seqdiff.run(seq_call, menu, 3, st, lambda seq, pos: {'kind': 'seqdiff', 'job': list(job), 'seq': list(seq)}, {'kind': 'history_dependent', 'heuristic': job[0]})
+    return st
+
+
 def _dispatch(item):
     k, job = item
-    return {'frames': _frames, 'coverage': _coverage, 'documented': _documented}[k](job)
+    return {'frames': _frames, 'coverage': _coverage, 'documented': _documented, 'seqdiff': _seqdiff}[k](job)
 
 
 def run(ctx):
@@ -243,6 +281,7 @@ def run(ctx):
         tot = enum.BELL[n] ** 3
         jobs += [('frames', (n, lo, hi)) for lo, hi in shards(tot, 96 if n == 4 else 16)]
     jobs += [('coverage', None), ('documented', None)]
+    jobs += [('seqdiff', (h, pw)) for h in ('MI-numba-randomized', 'MI', 'max-value-coverage', 'AMI') for pw in (False, True)]
     for st in pmap(_dispatch, jobs):
         ctx.stats.merge(st)
     ctx.extra['max_rows'] = 4 if ctx.thorough else 3
@@ -252,6 +291,8 @@ def run(ctx):
 
 def eval_case(case):
     k = case['kind']
+    if k == 'seqdiff':
+        return seqdiff.replay(seq_call, seq_menu(tuple(case['job'])), case['seq'])
     if k == 'frame':
         fails, _ = judge(case['columns'], case['data'], case['heuristic'], case['pairwise'])
         return [m for _, m in fails]
